@@ -231,9 +231,11 @@ def on_the_wire(ctx, b, cfg, results, dist, nontriv):
         if lean_clauses and not why:
             # only the statement's own clauses: same reporting (and known-finding shapes) as at the executor
             kinds = sorted(set(x.split(":")[0] for x in lean_clauses))
-            bad.append({"kind": "spec-violation", "config": cfg, "transport": c["transport"], "why": [], "spec_clauses": lean_clauses,
-                        "case": c, "body": body[:6000], "executor_payloads": P, "shape": {"clauses": ",".join(kinds)},
-                        "replay": "echo '<case json>' | <generated server %s> -mode http" % cfg})
+            for k in kinds:     # one record per violated clause (a case may violate several; findings are listed per clause)
+                bad.append({"kind": "spec-violation", "config": cfg, "transport": c["transport"], "why": [],
+                            "spec_clauses": [x for x in lean_clauses if x.split(":")[0] == k], "all_clauses_of_the_case": lean_clauses,
+                            "case": c, "body": body[:6000], "executor_payloads": P, "shape": {"clauses": k},
+                            "replay": "echo '<case json>' | <generated server %s> -mode http" % cfg})
             continue
         if why:
             why += lean_clauses
@@ -369,6 +371,13 @@ def run(ctx):
                "query": r["query"], "variables": r.get("variables"), "plan": r.get("plan"),
                "impl": r["payloads"], "plain": (r.get("plain") or {}).get("payloads"), "model": mj, "shape": shape,
                "replay": "echo '<case json>' | <generated server %s> -mode run   (and the same with every @defer removed)" % cfg}
+        if spec_bad and not why and len(clauses) > 1:
+            # a case that violates several clauses of the statement: one record per clause, each with its own shape (the open
+            # findings are listed per clause; a clause that is not listed is still reported)
+            for k in clauses:
+                ctx.violation(dict(rep, spec_clauses=[b for b in spec_bad if b.split(":")[0] == k], all_clauses_of_the_case=spec_bad,
+                                   shape={"clauses": k}))
+            continue
         ctx.violation(rep, no_failing_input=not (spec_bad or any(w in FAILING for w in why)))
     for rep in wire_divs:
         if len(ctx.violations) >= 20:
